@@ -168,6 +168,7 @@ func vfGetPKI() *vfPKI {
 		p.leaf["ecdsa/server-rogueca"] = vfMakeLeaf(p.RogueCA, p.RogueKey, "ecdsa", "vf-server-rogue", []string{vfServerName}, nb, na, 201)
 		p.leaf["ecdsa/client-rogueca"] = vfMakeLeaf(p.RogueCA, p.RogueKey, "ecdsa", "vf-client-rogue", []string{"vf.client.example"}, nb, na, 202)
 		p.leaf["rsa/server-other"] = vfMakeLeaf(p.CA, p.CAKey, "rsa", "vf-server-other-rsa", []string{"other.example"}, nb, na, 218)
+		p.leaf["ed25519/server-other"] = vfMakeLeaf(p.CA, p.CAKey, "ed25519", "vf-server-other-ed25519", []string{"other.example"}, nb, na, 219)
 		p.leaf["ecdsa/server-wrongname"] = vfMakeLeaf(p.CA, p.CAKey, "ecdsa", "vf-server-other", []string{"other.example"}, nb, na, 203)
 		p.leaf["ecdsa/server-ip"] = vfMakeLeaf(p.CA, p.CAKey, "ecdsa", "vf-server-ip", []string{"192.0.2.7", "2001:db8::7"}, nb, na, 213)
 		p.leaf["ecdsa/server-expired"] = vfMakeLeaf(p.CA, p.CAKey, "ecdsa", "vf-server-expired", []string{vfServerName},
